@@ -67,6 +67,11 @@ func c17Files() [][]rdbgen.Item {
 			name = []byte(fmt.Sprintf("k\x00\xff\xfe\"%d\n", i))
 		case 2:
 			name = append([]byte{0xc3, 0x28}, []byte(fmt.Sprint(i))...) // invalid UTF-8
+		case 0:
+			if i%8 == 0 {
+				// characters that mean something to a formatter, a JSON writer or a shell
+				name = []byte(fmt.Sprintf("100%%-%d-%%s%%d%%\\-<&>'\u2028-%%", i))
+			}
 		}
 		opts := rdbgen.KeyOpts{}
 		if i%3 == 0 {
@@ -93,7 +98,7 @@ func c17Files() [][]rdbgen.Item {
 			cur = append(cur, rdbgen.SelectDB(uint32(i%7), rdbgen.LCanon))
 		}
 		if i%9 == 8 {
-			body := rdbgen.RawStr([]byte(fmt.Sprintf("return %d", i)), rdbgen.LCanon)
+			body := rdbgen.RawStr([]byte(fmt.Sprintf("return %d %% 7 -- 100%%", i)), rdbgen.LCanon)
 			if i%2 == 0 {
 				// a script body stored compressed (a repetitive comment compresses to overlapping references)
 				body = rdbgen.LZFStr(bytes.Repeat([]byte("-- "), 12+i%5), "ref", 3, 9)
